@@ -325,6 +325,10 @@ def union(*xs) -> str:
     return "(" + " \\cup ".join(xs) + ")"
 
 
+def tup(*xs) -> str:
+    return "<<" + ", ".join(xs) + ">>"
+
+
 def product(grid: str, graphs: str, labs: str, tags: str, cps: str) -> str:
     return f'WorldProduct({{"{grid}"}}, {graphs}, {labs}, {tags}, {cps})'
 
@@ -346,7 +350,7 @@ def families(quick: bool) -> List[Tuple[str, str]]:
     fam: List[Tuple[str, str]] = []
     lab12 = "{{1}, {1, 2}}"
     if quick:
-        main = union(
+        main = tup(
             # topology: every edge list over 3 nodes / 2 edges, over 2 nodes / 3 edges
             product("dyadic", f"Dress(AllShapes(3, 2), {S(W1, WMH)}, {{1}})", "{{1}, {1, 2}, {2, 3}, {}}", "{{}}", caps()),
             product("dyadic", f"Dress(AllShapes(2, 3), {S(W1, WM1)}, {{1}})", lab12, "{{}}", caps(nb=(12, 64))),
@@ -366,24 +370,24 @@ def families(quick: bool) -> List[Tuple[str, str]]:
         )
         fam.append(("quick", main))
     else:
-        fam.append(("topo3", union(
+        fam.append(("topo3", tup(
             product("dyadic", f"Dress(AllShapes(3, 3), {S(W1, WMH)}, {{1}})", "(SUBSET (1..3)) \\ {{}}", "{{}}", caps(nb=(12,))),
             product("dyadic", f"Dress(AllShapes(2, 3), {S(W1, WM1, WH)}, {{1, 2}})", "{{1}, {1, 2}}", "{{}}", caps(nb=(12, 64), fl=(F0, F8))))))
-        fam.append(("topo4", product("dyadic", f"Dress(AllShapes(4, 2), {S(W1, WMH, W3)}, {{1}})", "{{1}, {1, 2}, {2, 4}, {3}}", "{{}, {4}}", caps(nb=(12,), fl=(F0, F8)))))
-        fam.append(("weights", union(
+        fam.append(("topo4", tup(product("dyadic", f"Dress(AllShapes(4, 2), {S(W1, WMH, W3)}, {{1}})", "{{1}, {1, 2}, {2, 4}, {3}}", "{{}, {4}}", caps(nb=(12,), fl=(F0, F8))))))
+        fam.append(("weights", tup(
             product("dyadic", f"Dress({shapes()}, {S(W1, WMH)}, {{1, 2}})", "{{1}, {1, 2}}", "{{}}", caps(fl=(F0, F8), nb=(12, 64))),
             product("dyadic", f"DressOne({shapes()}, {allw}, {{1, 2, 3}})", "(SUBSET (1..4)) \\ {{}}", "{{}}", caps(fl=(F0, F8), nb=(8, 12, 64), rad=(2, 4))))))
-        fam.append(("caps1", product("dyadic", f"Dress({shapes()}, {S(W1, WMH)}, {{1}})", "{{1}, {1, 2}, {2, 3}}", "{{}}", cap_sweeps((F0, F8)))))
-        fam.append(("caps2", product("dyadic", f"Dress({shapes(['diamond_back', 'five', 'shortcut', 'par_self'])}, {S(W1)}, {{1}})", "{{1}, {1, 2}}", "{{}}",
-                                     caps(rad=RAD, it=(1, 50), ly=(0, 2, 50), si=SIT, q=QB, sp=SPO, rx=RLX, nb=(8, 12, 64)))))
-        fam.append(("perf", union(
+        fam.append(("caps1", tup(product("dyadic", f"Dress({shapes()}, {S(W1, WMH)}, {{1}})", "{{1}, {1, 2}, {2, 3}}", "{{}}", cap_sweeps((F0, F8))))))
+        fam.append(("caps2", tup(product("dyadic", f"Dress({shapes(['diamond_back', 'five', 'shortcut', 'par_self'])}, {S(W1)}, {{1}})", "{{1}, {1, 2}}", "{{}}",
+                                     caps(rad=RAD, it=(1, 50), ly=(0, 2, 50), si=SIT, q=QB, sp=SPO, rx=RLX, nb=(8, 12, 64))))))
+        fam.append(("perf", tup(
             product("dyadic", f"Dress({shapes()}, {S(W1, WMH)}, {{1}})", "{{1}, {2, 3}, {1, 2, 3}}", "{{}, {1, 4}}",
                     caps(q=(3, 40), fr=(0, 1, 2, 3), vi=(0, 1, 2, 3), de=(0, 1, 2, 3), nb=(12, 64))),
             product("dyadic", f"Dress(AllShapes(3, 2), {S(W1)}, {{1}})", "SUBSET (1..3)", "SUBSET (1..3)",
                     union(caps(), caps(de=(1, 2), fr=(0, 1, 2)), caps(q=(1, 2)))))))
-        fam.append(("five", product("five", f"DressOne({shapes()}, {S(W1, WMH, WH, WM1)}, {{1, 2, 3, 4}})", "{{1}, {1, 2}, {2, 4}}", "{{}, {3}}",
+        fam.append(("five", tup(product("five", f"DressOne({shapes()}, {S(W1, WMH, WH, WM1)}, {{1, 2, 3, 4}})", "{{1}, {1, 2}, {2, 4}}", "{{}, {3}}",
                                     union(caps(fl=(F0, F8), nb=(8, 12, 64), rad=(1, 2, 4)), caps(md=(ATT,), nb=(8, 12, 64), rad=(1, 2, 4)),
-                                          caps(md=(EXP, ATT), q=QB, rx=(NOCAP, 1, 2))))))
+                                          caps(md=(EXP, ATT), q=QB, rx=(NOCAP, 1, 2)))))))
     return fam
 
 
